@@ -12,6 +12,9 @@ DEVS = [
     {"dev": {"k": "comm_subst_shared"}, "target": "c0"},
     {"dev": {"k": "comm_subst_independent"}, "target": "c0"},
     {"dev": {"k": "omit_pred"}, "target": "c0"},
+    # over-long response vectors: the index -> response pairing (and, in BBS, the challenge term) rests on the exact count
+    {"dev": {"k": "resp_len", "delta": 1}}, {"dev": {"k": "resp_len", "delta": 2}},
+    {"dev": {"k": "tamper_extend_minus_c"}}, {"dev": {"k": "tamper_extend_zero"}},
     {"dev": {"k": "rev_other_element_shared"}, "target": "r0"},
     {"dev": {"k": "rev_other_element_independent"}, "target": "r0"},
     {"dev": {"k": "omit_pred"}, "target": "r0"},
